@@ -30,6 +30,11 @@ def swept_failing(logpath, ranks, kind, failfile, **kw):
         raise {"RuntimeError": RuntimeError, "ValueError": ValueError, "StopIteration": StopIteration,
                "KeyError": KeyError, "ZeroDivisionError": ZeroDivisionError}[exc](
             f"injected failure on setting with code {c}")
+    if os.environ.get("XV_SLOW_EVEN") and c % 2 == 0:
+        # (only set while a batch is grown by a worker pool) settings with an even code take longer, so that
+        # the cases of a batch complete in an order different from the one they were submitted in
+        import time
+        time.sleep(0.06)
     if logpath:
         fd = os.open(logpath, os.O_WRONLY | os.O_APPEND | os.O_CREAT, 0o644)
         try:
@@ -287,6 +292,19 @@ class CropRun:
                         grow(i, crop=self.crop, verbosity=0)
                 elif how == "workers":
                     self.crop.grow(tuple(op[1]), num_workers=2)
+                elif how == "function-workers":
+                    # the path the cluster scripts take: grow(i, crop, num_workers=k) with cases of unequal
+                    # duration (a fresh pool, so that the workers see the environment variable)
+                    from xyzpy.gen.cropping import grow
+                    from joblib.externals.loky import get_reusable_executor
+                    os.environ["XV_SLOW_EVEN"] = "1"
+                    try:
+                        get_reusable_executor(max_workers=3, kill_workers=True)
+                        for i in op[1]:
+                            grow(i, crop=self.crop, num_workers=3, verbosity=0)
+                    finally:
+                        os.environ.pop("XV_SLOW_EVEN", None)
+                        get_reusable_executor(max_workers=3, kill_workers=True)
                 else:
                     self.crop.grow(tuple(op[1]) if len(op[1]) != 1 else op[1][0], verbosity=0)
             elif kind == "grow_observed":
